@@ -1664,31 +1664,6 @@ impl<'input, T: Input> Scanner<'input, T> {
             self.skip_block_scalar_indent(indent, &mut trailing_breaks);
         }
 
-        // We have an end-of-stream with no content, e.g.:
-        // ```yaml
-        // - |+
-        // ```
-        if self.input.next_is_z() {
-            let contents = match chomping {
-                // We strip trailing linebreaks. Nothing remain.
-                Chomping::Strip => String::new(),
-                // There was no newline after the chomping indicator.
-                _ if self.mark.line == start_mark.line() => String::new(),
-                // We clip lines, and there was a newline after the chomping indicator.
-                // All other breaks are ignored.
-                Chomping::Clip => chomping_break,
-                // We keep lines. There was a newline after the chomping indicator but nothing
-                // else.
-                Chomping::Keep if trailing_breaks.is_empty() => chomping_break,
-                // Otherwise, the newline after chomping is ignored.
-                Chomping::Keep => trailing_breaks,
-            };
-            return Ok(Token(
-                Span::new(start_mark, self.mark),
-                TokenType::Scalar(style, contents.into()),
-            ));
-        }
-
         if self.mark.col < indent && (self.mark.col as isize) > self.indent {
             return Err(ScanError::new_str(
                 self.mark,
@@ -1697,7 +1672,10 @@ impl<'input, T: Input> Scanner<'input, T> {
         }
 
         let mut line_buffer = String::with_capacity(100);
+        let header_line = start_mark.line();
         let start_mark = self.mark;
+        // Whether the input ended inside a content line (no line break after its last character).
+        let mut eof_in_content_line = false;
         while self.mark.col == indent && !self.input.next_is_z() {
             if indent == 0 {
                 self.input.lookahead(4);
@@ -1728,6 +1706,7 @@ impl<'input, T: Input> Scanner<'input, T> {
             // break on EOF
             self.input.lookahead(2);
             if self.input.next_is_z() {
+                eof_in_content_line = true;
                 break;
             }
 
@@ -1738,18 +1717,27 @@ impl<'input, T: Input> Scanner<'input, T> {
         }
 
         // Chomp the tail.
+        // If we had reached an eof but the last character wasn't an end-of-line, check if the last
+        // line was indented at least as the rest of the scalar, then we need to consider there is
+        // a newline. This does not apply to the header line (`--- |+<EOF>`).
+        let unterminated_last_line = self.input.next_is_z()
+            && self.mark.col >= indent.max(1)
+            && self.mark.line != header_line;
         if chomping != Chomping::Strip {
             string.push_str(&leading_break);
-            // If we had reached an eof but the last character wasn't an end-of-line, check if the
-            // last line was indented at least as the rest of the scalar, then we need to consider
-            // there is a newline.
-            if self.input.next_is_z() && self.mark.col >= indent.max(1) {
+            // The virtual newline ends the last content line...
+            if unterminated_last_line && eof_in_content_line {
                 string.push('\n');
             }
         }
 
         if chomping == Chomping::Keep {
             string.push_str(&trailing_breaks);
+            // ... or it ends a last line made of indentation only, which is one more trailing empty
+            // line: only `keep` retains it.
+            if unterminated_last_line && !eof_in_content_line {
+                string.push('\n');
+            }
         }
 
         Ok(Token(
